@@ -13,7 +13,7 @@ Section Hist.
   Proof.
     split; [|split; [|split]].
     - intros i a E. discriminate.
-    - intros a k Hk. unfold skids, cellD in Hk. simpl in Hk. destruct a; destruct Hk.
+    - apply addr_rank_rank. intros a k Hk. unfold skids, cellD in Hk. simpl in Hk. destruct a; destruct Hk.
     - intros a Hp. exfalso. apply Hp. unfold cellD; simpl. destruct a; reflexivity.
     - intros a Hl. unfold live in Hl. simpl in Hl. lia.
   Qed.
